@@ -164,6 +164,16 @@ func (b *builder) scenarios(seed uint64) []*scenario {
 		add(&scenario{Name: "server-without-ca.crt-no-ca", Class: "partial:tls-secret-keys-missing", Cfg: chartConv, world: w})
 	}
 
+	// 6b. TLS secrets holding only fragments (certificate and bundle without key / key only): what
+	// exists is kept, nothing is regenerated over it
+	{
+		w := newWorld(seed*100 + 17)
+		w.MustSeed("user", secretObj(chart.Namespace, chart.CASecret, map[string][]byte{"tls.crt": b.own.CACrt, "tls.key": b.own.CAKey}))
+		w.MustSeed("user", secretObj(chart.Namespace, chart.ServerSecret, map[string][]byte{"tls.crt": b.own.SrvCrt, "ca.crt": b.own.CACrt}))
+		w.MustSeed("user", secretObj(chart.Namespace, chart.ClientSecret, map[string][]byte{"tls.key": b.own.CliKey}))
+		add(&scenario{Name: "tls-secrets-with-fragments", Class: "partial:tls-secret-keys-missing", Cfg: chartConv, world: w})
+	}
+
 	// 7. CRDs and webhook configurations present, but without / with a stale CA bundle; the
 	// functions CRD still lists an old stored version and a Function exists (migrator path)
 	{
